@@ -46,16 +46,20 @@ def positions(prog, nflushes=0):
     for n, (struct, nid, top) in enumerate(leaves):
         k = struct[1][0]
         if k == "item":
-            for mode in ("error", "unset", "baseerror"):
+            for mode in ("error", "unset", "baseerror", "falsyerror"):
                 out.append(("item", n, mode))
         out.append(("leaf", n, "err", "exc"))
         out.append(("leaf", n, "err", "base"))
+        if n % 2 == 0:
+            out.append(("leaf", n, "err", "falsy"))
         out.append(("leaf", n, "lazy"))
         out.append(("leaf", n, "junk"))
     for n, (block, i, nid, top) in enumerate(slots):
         out.append(("raise", n, "exc"))
         if n % 3 == 0:
             out.append(("raise", n, "base"))
+        if n % 3 == 1:
+            out.append(("raise", n, "falsy"))
     for f in range(nflushes):
         out.append(("flush", f, 0, "exc"))
         out.append(("flush", f, 1, "exc"))
